@@ -135,6 +135,8 @@ static void setup_fake_module(void)
 #define NSLOT 48
 static unsigned long slots[NSLOT];
 static int nshow = 16;
+static int reversed; /* slot s lives at slots[NSLOT - 1 - s]: deeper calls at lower addresses, as on a real stack */
+#define SLOT(s) (reversed ? &slots[NSLOT - 1 - ((s) % NSLOT)] : &slots[(s) % NSLOT])
 
 /* xmm0..15 := before; save(ctx); xmm0..15 := clobber; restore(ctx); after := xmm0..15 */
 void xmm_roundtrip(const uint64_t *before, const uint64_t *clobber, uint64_t *after, void *ctx);
@@ -208,7 +210,7 @@ static void snap(void)
 	printf(" | %d", mtd.idx);
 	pword(mtd.cygprof_dummy);
 	for (i = 1; i < nshow; i++)
-		pword(slots[i]);
+		pword(*SLOT(i));
 	printf("\n");
 }
 
@@ -220,6 +222,8 @@ int main(int argc, char **argv)
 		nshow = atoi(argv[1]);
 	if (nshow > NSLOT)
 		nshow = NSLOT;
+	if (argc > 2 && !strcmp(argv[2], "rev"))
+		reversed = 1;
 	setvbuf(stdout, NULL, _IOFBF, 1 << 16);
 #ifdef C01_WITH_PLT
 	setup_fake_module();
@@ -237,7 +241,7 @@ int main(int argc, char **argv)
 			break;
 		if (!strcmp(op, "P")) {
 			sscanf(line, "%*s %lu %lu", &s, &v);
-			slots[s % NSLOT] = v;
+			*SLOT(s) = v;
 			printf("P");
 		}
 		else if (!strcmp(op, "N")) {
@@ -258,7 +262,7 @@ int main(int argc, char **argv)
 			sscanf(line, "%*s %d %lu", &k, &s);
 			memset(&regs, 0, sizeof(regs));
 			errno = 77;
-			r = mcount_entry(&slots[s % NSLOT], (unsigned long)funcs[k % NFUNC] + 4, &regs);
+			r = mcount_entry(SLOT(s), (unsigned long)funcs[k % NFUNC] + 4, &regs);
 			printf("E %d %d", r, errno == 77);
 		}
 #ifdef C01_WITH_PLT
@@ -268,7 +272,7 @@ int main(int argc, char **argv)
 			sscanf(line, "%*s %d %lu", &k, &s);
 			memset(&regs, 0, sizeof(regs));
 			errno = 88;
-			r = plthook_entry(&slots[s % NSLOT], (unsigned long)(k % NFUNC), FAKE_MODULE_ID, &regs);
+			r = plthook_entry(SLOT(s), (unsigned long)(k % NFUNC), FAKE_MODULE_ID, &regs);
 			printf("PE %d %d", r != 0, errno == 88);
 		}
 #endif
@@ -286,9 +290,10 @@ int main(int argc, char **argv)
 			int n = 0, ok = 1;
 			sscanf(line, "%*s %lu", &s);
 			s %= NSLOT;
+			unsigned long *sl = SLOT(s);
 			while (n < 100000) {
-				int is_m = mcount_return_fn && slots[s] == mcount_return_fn;
-				int is_p = slots[s] == (unsigned long)plthook_return;
+				int is_m = mcount_return_fn && (*sl) == mcount_return_fn;
+				int is_p = (*sl) == (unsigned long)plthook_return;
 				if (!is_m && !is_p)
 					break;
 				if (mtd.idx <= 0)
@@ -296,16 +301,16 @@ int main(int argc, char **argv)
 				errno = 55;
 #ifdef C01_WITH_PLT
 				if (is_p)
-					slots[s] = plthook_exit(rv);
+					(*sl) = plthook_exit(rv);
 				else
 #endif
-					slots[s] = mcount_exit(rv);
+					(*sl) = mcount_exit(rv);
 				if (errno != 55)
 					ok = 0;
 				n++;
 			}
 			printf("R %d", n);
-			pword(slots[s]);
+			pword((*sl));
 			printf(" %d", ok);
 		}
 		else if (!strcmp(op, "XE")) {
